@@ -101,6 +101,11 @@ def foreign_case(r, cid, bed=None, readers=("plain", "cached"), counter=None):
             spec["zooms"] = []
     else:
         spec["zooms"] = []
+    if spec["zooms"] and len(chroms) > 1 and r.chance(1, 2):
+        # the UCSC writers' layout: zoom records packed into blocks ACROSS chromosome boundaries (bigtools never does this)
+        for z in spec["zooms"]:
+            z["split_on_chrom"] = False
+            z["items_per_slot"] = r.choice([3, 8, 64])
     try:
         data = bbi_codec.encode_bigbed(spec) if bed else bbi_codec.encode_bigwig(spec)
         problems = bbi_codec.check(data)
@@ -125,7 +130,7 @@ def foreign_case(r, cid, bed=None, readers=("plain", "cached"), counter=None):
     lines += bbgen.gen_queries(r, present, sizes, data_by_name, kinds, 8, zoom_levels=len(spec["zooms"]), strict_nonempty=bed)
     for lv in range(len(spec["zooms"])):
         lines.append(f"Q zoom {present[0]} 0 {sizes[present[0]]} #{lv}")
-    tags = {kind, spec["endian"], "ids_permuted" if spec.get("ids") else "ids_in_name_order", "zlib" if spec["compress"] else "raw", "layout_" + spec["rtree_layout"],
+    tags = {kind, spec["endian"], *(["zoom_blocks_span_chromosomes"] if any(not z.get("split_on_chrom", True) for z in spec["zooms"]) else []), "ids_permuted" if spec.get("ids") else "ids_in_name_order", "zlib" if spec["compress"] else "raw", "layout_" + spec["rtree_layout"],
             f"version_{spec['version']}", f"fanout_{spec['rtree_block_size']}", f"chromtree_{spec['chrom_block_size']}"}
     if not bed:
         for s in sections:
